@@ -214,6 +214,22 @@ def mapVal (f : Val → Option Val) : Val → Option Val
   | .vec xs => xs.mapM f |>.map .vec
   | x => f x
 
+/-! ## Rounding to an integral value (exact operations: no rounding error, so the only freedom a target has is the
+direction of ties) -/
+
+def fTruncF (x : Float32) : Float32 := if x < 0 then x.ceil else x.floor
+/-- is `x` exactly halfway between two integers -/
+def fIsTieF (x : Float32) : Bool := x - x.floor == 0.5
+/-- IEEE-754 roundToIntegralTiesToEven (WGSL `round`): through `floor` and exact differences; a zero result has the sign of `x` -/
+def fRoundEvenF (x : Float32) : Float32 :=
+  let r := x.floor
+  let d := x - r
+  let res := if d < 0.5 then r else if d > 0.5 then r + 1 else if (r / 2).floor == r / 2 then r else r + 1
+  if res == 0 && x < 0 then -res else res
+/-- C `roundf`: ties away from zero (Metal `round`) -/
+def fRoundAwayF (x : Float32) : Float32 := x.round
+def fun1 (f : Float32 → Float32) (a : W) : W := bitsOfF32 (f (f32OfBits a))
+
 /-! ## Builtins -/
 
 def zipVal (f : Val → Val → Option Val) : Val → Val → Option Val
@@ -244,6 +260,10 @@ def math1 (name : String) : Val → Option Val
     | _ => none
   | .f32 a => match name with
     | "abs" => some (.f32 (a &&& 0x7FFFFFFF#32))
+    | "floor" => some (.f32 (fun1 Float32.floor a))
+    | "ceil" => some (.f32 (fun1 Float32.ceil a))
+    | "trunc" => some (.f32 (fun1 fTruncF a))
+    | "round" => some (.f32 (fun1 fRoundEvenF a))       -- WGSL: ties to even
     | _ => none
   | _ => none
 
